@@ -87,6 +87,13 @@ func validGuarded(b *ssa.BasicBlock, v ssa.Value) bool {
 		if ok && g.pol && calleeFullName(c) == "(reflect.Value).IsValid" && valueAlias(c.Call.Args[0], v) {
 			return true
 		}
+		// CanSet / CanAddr / CanInterface are false (not a panic) on the zero Value
+		if ok && g.pol && valueAlias(c.Call.Args[0], v) {
+			switch calleeFullName(c) {
+			case "(reflect.Value).CanSet", "(reflect.Value).CanAddr", "(reflect.Value).CanInterface":
+				return true
+			}
+		}
 		// (also below: a `case K1, K2:` arm reached only by Kind() == Ki edges)
 		// v.Kind() == K with K != Invalid: the zero Value has kind Invalid
 		if op, x, y, isCmp := asCmp(g.cond); isCmp && ((op == token.EQL && g.pol) || (op == token.NEQ && !g.pol)) {
@@ -223,7 +230,7 @@ func zeroValueSource(v ssa.Value, d int) string {
 				return "Value.Elem() of a possibly nil pointer"
 			}
 		case "reflect.ValueOf":
-			if possiblyNilIface(x.Call.Args[0]) {
+			if possiblyNilIface(x.Call.Args[0]) && !nonNilGuarded(x.Block(), x.Call.Args[0]) {
 				return "reflect.ValueOf(" + argDesc(x.Call.Args[0]) + ") of a possibly nil interface"
 			}
 		case "(reflect.Value).MapIndex":
